@@ -24,7 +24,7 @@ EXPLANATION = (
     "R6 check value: C06 (same _write). Float truncation off the 0.1 grid is not decided."
 )
 ASSUMPTIONS = ["vendor tables transcribed in sa/spec/tables.py (DESIGN Appendix A) are the oracle", "values outside the vendor's valid ranges are outside the property's quantifier"]
-FLOORS = {"C04.R1": 40, "C04.R2": 30, "C04.R3": 30, "C04.R4": 14, "C04.R5": 6, "C04.R6": 1}
+FLOORS = {"C04.R1": 40, "C04.R2": 30, "C04.R3": 30, "C04.R4": 14, "C04.R5": 6, "C04.R6": 1, "C04.R7": 1, "C04.R8": 7}
 
 
 def run(ctx):
@@ -35,6 +35,74 @@ def run(ctx):
     r4(ctx)
     r5(ctx)
     r6(ctx)
+    quick_timer_duration(ctx)
+    from . import c09
+    from .common import AT4_API, AT5_API, reuse
+
+    reuse(ctx, "C04.R7", [lambda c: c09.r5(c, AT4_API), lambda c: c09.r5(c, AT5_API)], "every air-conditioner / zone object is created with the number its own ability / names record carries (not its position in the message), so commands address the intended unit (C09.R5)",
+          keep=lambda o: "ac-construction" in o.construct or "names_message" in o.construct or "every-record" in o.construct)
+
+
+def quick_timer_duration(ctx, R="C04.R8"):
+    """The quick-timer duration (no vendor text; the console's own hour/minute bytes): evaluated by the checker's interpreter
+    (sa/minieval.py) on the source of both generations' _encode_duration/_decode_duration.  (a) every whole-minute duration
+    below 24 h is encoded as exactly that many hours and minutes and decodes back to itself; (b) longer durations wrap modulo
+    24 h; (c) between two minutes the encoded value is the same in both generations (sibling parity) and never later than the
+    requested duration."""
+    import datetime as _dt
+
+    from ..minieval import Mini, Unsupported
+
+    res = {}
+    for gen, mod in (("at4", "x1FFF20_quick_timer"), ("at5", "x1FFF49_quick_timer")):
+        m = ctx.repo.module(f"pyairtouch.{gen}.comms.{mod}")
+        enc, dec = m.get_class("QuickTimerEncoder"), m.get_class("QuickTimerDecoder")
+        ctx.require(enc is not None and dec is not None, f"{m.relpath}: QuickTimerEncoder/QuickTimerDecoder vanished")
+        fe, fd = enc.methods.get("_encode_duration"), dec.methods.get("_decode_duration")
+        if fe is None or fd is None:
+            # helpers inlined or renamed beyond recognition: nothing to evaluate here
+            raise AnalysisError(f"{m.relpath}: the duration helpers of the quick timer codec are not separate methods any more")
+        pe = fe.args.args[1].arg
+        pd = [a.arg for a in fd.args.args[1:]]
+
+        def encode(sec, fe=fe, enc=enc, m=m, pe=pe):
+            try:
+                r = Mini(ctx.repo, m, {}, enc).function_value(fe, {pe: _dt.timedelta(seconds=sec)})
+            except Unsupported as ex:
+                raise AnalysisError(f"{m.relpath}: _encode_duration left the evaluable fragment: {ex}")
+            if not (isinstance(r, tuple) and len(r) == 2 and all(isinstance(x, int) for x in r)):
+                raise AnalysisError(f"{m.relpath}: _encode_duration does not return an (hours, minutes) pair of ints")
+            return r
+
+        def decode(h, mi, fd=fd, dec=dec, m=m, pd=pd):
+            try:
+                return Mini(ctx.repo, m, {}, dec).function_value(fd, {pd[0]: h, pd[1]: mi})
+            except Unsupported as ex:
+                raise AnalysisError(f"{m.relpath}: _decode_duration left the evaluable fragment: {ex}")
+
+        bad = None
+        for k in range(0, 24 * 60):
+            h, mi = encode(60 * k)
+            if (h, mi) != divmod(k, 60):
+                bad = f"{k // 60}:{k % 60:02d}:00 is encoded as hours={h}, minutes={mi}"
+                break
+            back = decode(h, mi)
+            if back != _dt.timedelta(minutes=k):
+                bad = f"hours={h}, minutes={mi} decodes to {back}, not {k // 60}:{k % 60:02d}:00"
+                break
+        ctx.check(bad is None, R, f"{gen}.{mod}:duration:exact-on-the-minute-grid", m, fe, "every whole-minute duration below 24 h is sent as exactly its hours and minutes and decodes back to itself (1440 values evaluated)", bad or "")
+        bad = None
+        for k in (24 * 60, 24 * 60 + 1, 25 * 60 + 30, 48 * 60 + 59, 255 * 60, 300 * 60 + 7):
+            h, mi = encode(60 * k)
+            if (h, mi) != ((k // 60) % 24, k % 60) or not (0 <= h <= 255 and 0 <= mi <= 255):
+                bad = f"{k // 60} h {k % 60} min is encoded as hours={h}, minutes={mi}"
+                break
+        ctx.check(bad is None, R, f"{gen}.{mod}:duration:wraps-at-24h", m, fe, "durations of a day or more wrap modulo 24 h and stay inside the one-byte slots", bad or "")
+        res[gen] = {sec: encode(sec) for k in (0, 1, 59, 60, 61, 599, 1439) for sec in (60 * k + o for o in (0, 1, 29, 30, 31, 59))}
+        late = next((sec for sec, (h, mi) in res[gen].items() if h * 3600 + mi * 60 > sec), None)
+        ctx.check(late is None, R, f"{gen}.{mod}:duration:never-later-than-requested", m, fe, "between two minutes the timer is set to the minute that has been reached, not to a later one", f"{late} s is sent as {res[gen][late]}" if late is not None else "")
+    diff = next((sec for sec in res["at4"] if res["at4"][sec] != res["at5"].get(sec)), None)
+    ctx.check(diff is None, R, "quick-timer:duration:same-in-both-generations", ctx.repo.module("pyairtouch.at5.comms.x1FFF49_quick_timer"), None, "the same duration gives the same hours and minutes on both wire formats (42 sub-minute witnesses)", f"{diff} s: AirTouch 4 sends {res['at4'][diff]}, AirTouch 5 sends {res['at5'].get(diff)}" if diff is not None else "")
 
 
 def r6(ctx):
